@@ -226,9 +226,16 @@ def main(argv):
             steps.append({"op": "get", "args": ["1.3.6.9"], "replies": [[good]]})
         hs.append({"version": "v3", "mode": "sync", "timeout": 2.0, "steps": steps, "_cfg": cfgname,
                    "v3": dict(v3, engine_id="80001f8880a1b2c3d4", agent_engine_id="80001f8880a1b2c3d4", boots=2, time=500)})
+    # a flood of well-formed datagrams with foreign request-ids inside one receive call (each is skipped): no stack or
+    # resource may grow with their number
+    gvb = {"vbs": ber.varbind(ber.enc_oid([1, 3, 6, 9]), ber.enc_value("int", 1)).hex()}
+    for ver, mode, nst in [("v2c", "sync", 3000), ("v1", "async", 1500)] + ([("v2c", "sync", 100000)] if thorough else []):
+        fl = [dict(gvb, rid="same+%d" % (1 + i % 9), delay=(-0.0003 if mode == "async" else (-0.001 if i % 64 == 0 else 0))) for i in range(nst)]
+        hs.append({"version": ver, "mode": mode, "timeout": 30.0, "watchdog": 120.0, "community": "public", "_cfg": "%s/%s flood of %d" % (ver, mode, nst),
+                   "steps": [{"op": "get", "args": ["1.3.6.9"], "replies": [fl + [dict(gvb, delay=-0.05)]]}]})
     resh, logh = vf.run_api_worker("C01", {"scenarios": [{k: v for k, v in h.items() if not k.startswith("_")} for h in hs], "model_exe": v3exe})
     if resh is None:
-        c.violation("the process died while a session consumed several large encrypted datagrams in one receive call: " + logh.strip()[-300:],
+        c.violation("the process died while a session consumed many datagrams (large encrypted ones, or a flood of foreign replies) in one receive call: " + logh.strip()[-300:],
                     {"scenarios": [{k: v for k, v in h.items() if not k.startswith("_")} for h in hs], "worker_log": logh[-1500:]}, key="process-aborted")
     else:
         for h, rec in zip(hs, resh["records"]):
